@@ -83,4 +83,117 @@ PROPS = {
         ],
         "trusted_base": CRYPTO_AXIOMS,
     },
+    "C01": {
+        "level": "proof",
+        "units": ["za_merchant", "sproof", "cproof", "challenge", "transcripts"],
+        "scans": ["verified_blinded_state_sites", "verified_blinded_close_state_sites", "verified_blinded_message_sites"],
+        "assumptions": [
+            "Fiat-Shamir in the random-oracle model and the forking step (from one accepting proof to two transcripts) are cryptographic, outside any program logic; discrete-log binding of the commitments",
+            "decided here: the verifier accepts EXACTLY the establish relation under c = chal(T), T contains every non-response field of the proof and every public value, the hand-over returns the proven commitments, and initialize/activate blind-sign exactly those commitments",
+        ],
+        "trusted_base": CRYPTO_AXIOMS,
+    },
+    "C02": {
+        "level": "proof",
+        "units": ["za_merchant", "sproof", "cproof", "range", "challenge", "transcripts"],
+        "scans": ["verified_blinded_state_sites", "verified_blinded_close_state_sites", "verified_blinded_message_sites"],
+        "assumptions": [
+            "as C01, plus unforgeability of PS signatures (pay token, digit signatures)",
+            "the special-soundness lemma for the full pay relation is stated, not mechanised",
+        ],
+        "trusted_base": CRYPTO_AXIOMS,
+    },
+    "C03": {
+        "level": "proof",
+        "units": ["za_customer", "za_states", "za_merchant"],
+        "scans": ["revocation_pair_release_sites", "lock_message_sites", "no_unsafe"],
+        "assumptions": [
+            "the re-randomiser drawn in close() is non-zero (probability 2^-255 otherwise)",
+            "'the lock has not been disclosed earlier' = ownership (RevocationPair is not Clone; disclosed ones were moved out) + freshness of RevocationPair::new, which is probabilistic and NOT decided",
+            "byte-for-byte unchanged on refusal is decided as value equality (Err(s) ==> s == self); encoding is a function of the value",
+        ],
+        "trusted_base": CRYPTO_AXIOMS,
+    },
+    "C04": {
+        "level": "proof",
+        "units": ["za_customer", "za_states", "za_lib"],
+        "kani": ["balance_try_new_exact", "amount_constructors_exact", "balance_apply_exact", "balance_try_add_exact"],
+        "assumptions": [
+            "blind-signing randomiser u != 0 and re-randomiser r != 0",
+            "completeness of EstablishProof/PayProof (prover output accepted by verifier) rests on the assumed commit-phase contracts of CommitmentProofBuilder::generate_proof_commitments and RangeConstraintBuilder::generate_constraint_commitments (closure captures &mut rng); EstablishProof::new / PayProof::new are contract-only here",
+        ],
+        "trusted_base": CRYPTO_AXIOMS,
+    },
+    "C05": {
+        "level": "proof",
+        "units": ["za_merchant", "za_nonce_revlock", "pedersen"],
+        "scans": ["revocation_pair_sites"],
+        "assumptions": [
+            "RevocationPair::new is contract-only in Verus (u8 index += 1 would need 256 consecutive non-canonical digests to overflow: probability ~2^-256k)",
+            "SHA3 preimage resistance is a cryptographic hypothesis",
+        ],
+        "trusted_base": CRYPTO_AXIOMS,
+    },
+    "C06": {
+        "level": "proof",
+        "units": ["za_merchant", "za_states", "challenge", "transcripts"],
+        "assumptions": [
+            "SHA3 collision resistance (transcript differs ==> challenge differs); challenge != 0; commitments of honest proofs are not the identity; cross-session blinding-factor coincidences are negligible",
+            "the revocation-commitment parameters are not hashed into the pay challenge; replacing them changes the operand of the revocation-lock sub-proof equation (a linear coincidence otherwise)",
+            "decided here: exactness and transcript coverage of both verifiers, Context = SHA3 of the context bytes is hashed, check_close_signature == PS validity on the full close-state message",
+        ],
+        "trusted_base": CRYPTO_AXIOMS,
+    },
+    "C14": {
+        "level": "proof",
+        "units": ["ps", "sproof", "cproof", "za_customer", "za_states", "za_nonce_revlock"],
+        "assumptions": [
+            "DECIDED: structural freshness only - every signature shown is randomize_r(blind_bf(sigma)) with r appended to the RNG draw log in the same call; closing signatures are re-randomized; nonces come from fresh draws; Ready::start reveals the old nonce only; lock releases the old pair only",
+            "NOT DECIDABLE by any contract (assumed): that two values are DIFFERENT across messages (true only with overwhelming probability over the draws, false for a constant RNG), and zero-knowledge itself",
+        ],
+        "trusted_base": CRYPTO_AXIOMS,
+    },
+    "C15": {
+        "level": "proof",
+        "units": ["za_nonce_revlock", "validators"],
+        "kani": ["balance_decode_invariant"],
+        "scans": ["serde_routing", "nonce_sites", "revocation_pair_sites"],
+        "assumptions": [
+            "bls12_381 decoders accept canonical, on-curve, in-subgroup encodings only (documented contract of from_compressed/from_bytes)",
+            "serde-derive/bincode encode a struct as the concatenation of its fields in declaration order; code generated by serde_derive is not under contract",
+        ],
+        "trusted_base": CRYPTO_AXIOMS,
+    },
+    "C16": {
+        "level": "proof",
+        "kani": ["array_visitor_total_n1", "array_visitor_total_n5", "boxed_array_visitor_total_n1", "vec_visitor_bounded_allocation"],
+        "scans": ["no_unsafe"],
+        "assumptions": [
+            "code generated by serde_derive and bincode's own reader are not under contract (macro-generated / dependency)",
+            "the sequence visitors are driven by a harness SeqAccess yielding any number of elements <= N+2 with any size hint; complete for code that stops at capacity",
+        ],
+        "trusted_base": [],
+    },
+    "C17": {
+        "level": "proof",
+        "units": ["za_lib", "za_states"],
+        "kani": ["balance_try_new_exact", "amount_constructors_exact", "balance_apply_exact", "balance_try_add_exact", "amount_to_scalar_total", "balance_to_scalar_total"],
+        "assumptions": ["Scalar::from(u64) == iota(x) (assumed contract of bls12_381)"],
+        "trusted_base": CRYPTO_AXIOMS,
+    },
+    "C18": {
+        "level": "proof",
+        "units": ["za_nonce_revlock", "za_states"],
+        "scans": ["nonce_sites"],
+        "assumptions": ["SHA3 collision resistance for 'the channel id changes'; y_2 != 0 from key well-formedness (C19)", "ChannelId::new / to_scalar are contract-only (byte slicing)"],
+        "trusted_base": CRYPTO_AXIOMS,
+    },
+    "C20": {
+        "level": "other",
+        "units": ["za_customer", "za_nonce_revlock"],
+        "scans": ["serde_routing", "customer_state_shapes"],
+        "explanation": "modular argument: restored value == original value field by field (validators return the same fields for every constructed value: Verus contracts; shapes of the five stage structs carry both derives and no skip/default/flatten/rename: syn scan) ==> identical behaviour in safe Rust without interior mutability; the serde-derive/bincode round trip on mirrored shapes is an assumption",
+        "assumptions": ["serde-derive/bincode round trip on mirrored shapes; codec pair to_compressed/from_compressed inverse"],
+        "trusted_base": CRYPTO_AXIOMS,
+    },
 }
